@@ -217,9 +217,10 @@ theorem zscan_same_walk (g : Cfg) (hg : g.ok) (z : List (Bytes × Int)) (cursor 
 
 /-! ### The MATCH matcher -/
 
-/-- MATCH on the current tree still goes through `String::from_utf8_lossy`.  Stops checking when
-    the matcher is made byte-wise (then `match_refines` applies and the finding is closed). -/
-theorem tree_match_is_lossy : Gen.scanCfg.lossy = true := by decide
+/-- MATCH on the current tree is byte-wise (the repaired matcher), so the full statement
+    `match_refines` below speaks about the code.  Stops checking if matching goes back through
+    `String::from_utf8_lossy`. -/
+theorem tree_match_is_bytewise : Gen.scanCfg.lossy = false := by decide
 
 /-- The recursion budget of the model's matcher is never the reason for a verdict. -/
 theorem match_fuel_irrelevant (p t : List Nat) : (Code.globLoop (Code.globFuel p t) p t none).isSome = true :=
